@@ -225,8 +225,12 @@ impl FromStr for Point {
             return Err("Invalid length for algebraic string");
         }
 
-        let c = pair.chars().next().unwrap();
-        let r = pair.chars().nth(1).unwrap();
+        // two bytes are not necessarily two characters
+        let mut chars = pair.chars();
+        let (c, r) = match (chars.next(), chars.next()) {
+            (Some(c), Some(r)) => (c, r),
+            _ => return Err("Invalid length for algebraic string"),
+        };
         let col = match c {
             'a' => 0,
             'b' => 1,
@@ -239,7 +243,10 @@ impl FromStr for Point {
             _ => return Err("Invalid column"),
         };
 
-        let row = BOARD_END - (r.to_digit(10).unwrap() as usize);
+        let row = match r.to_digit(10) {
+            Some(digit) => BOARD_END - (digit as usize),
+            None => return Err("Invalid row"),
+        };
         if !(BOARD_START..BOARD_END).contains(&row) {
             return Err("Invalid row");
         }
